@@ -16,7 +16,7 @@ T = {
  "C02-B": ("C02", "last month of a 13-month lunar year vs first month of the next (ordinal packs 12 months per year)", "C02 02.a/B/is_before, is_after (engine B, realised on a real leap year)", ""),
  "C03-A": ("C03", "years whose anchoring new moon falls on the winter-solstice day (w >= instead of >)", None, "outside: comparison between two values of the astronomical kernel (arbitrary under ENV-A)"),
  "C03-B": ("C03", "lunations AD 619-1220 with a shifted correction index in calc_shuo", None, "outside: inside the astronomical kernel (C05 territory, n/a)"),
- "C06-A": ("C06", "SolarTerm::next when index + n is a negative multiple of 24", "C06 06.a / C11 11.c (Kani, |n| <= 30)", ""),
+ "C06-A": ("C06", "SolarTerm::next when index + n is a negative multiple of 24", "C06 06.a / C11 11.c (Kani flags the obligation, |n| <= 30; the trace run times out, the native candidate grid supplies the witness; 15 min for this failing run)", ""),
  "C06-B": ("C06", "dates before the 18th whose mid-month term falls on the 16th/17th (years >= 5260)", "C06 06.b/B/term-day-aligned (engine B; confirmed by the native scan of sampled years 1583..7275)", ""),
  "C07-A": ("C07", "January/February of century years not divisible by 400 (century term from the un-shifted year)", "C01 01.c/ord (months 1, 2)", "the property it was written for (C07) composes with C01: the day count itself is wrong"),
  "C07-B": ("C07", "= C02-A", None, "outside (data-dependent first-month offset)"),
